@@ -25,6 +25,10 @@ import (
 //	/identity[/x]     identity info for the generic authenticator (credential in Authorization / cookie "sid" / body)
 //	/authz[/x]        remote authorizer endpoint (403 when the request contains "deny")
 //	/ctx[/x]          contextualizer endpoint
+//	                  both answer with the echoed request (JSON payloads decoded: numbers, objects, lists come back as such) and
+//	                  "stats" (numbers, a nested object and a list derived from the request); ?ct=<media type> announces the
+//	                  (JSON, hence also YAML) body with another Content-Type
+//	/doc/<name>       registered static JSON documents (e.g. OAuth2 server metadata under <name>/.well-known/...)
 //	/token[/x]?expires_in=N   OAuth2 token endpoint (client credentials)
 //	/jwks/<name>      registered JWKS documents
 //	/cc?cc=..&expires=..&date=..&age=..   Cache-Control controlled endpoint
@@ -38,6 +42,7 @@ type Servers struct {
 	byPath map[string]int // path -> count
 	log    []Call
 	jwks   map[string][]byte
+	docs   map[string][]byte
 }
 
 // Call is one request that reached the server.
@@ -113,7 +118,7 @@ func digest(parts ...string) string {
 }
 
 func NewServers() *Servers {
-	s := &Servers{calls: map[string]int{}, byPath: map[string]int{}, jwks: map[string][]byte{}}
+	s := &Servers{calls: map[string]int{}, byPath: map[string]int{}, jwks: map[string][]byte{}, docs: map[string][]byte{}}
 	s.Srv = httptest.NewServer(http.HandlerFunc(s.handle))
 	s.URL = s.Srv.URL
 	return s
@@ -125,6 +130,13 @@ func (s *Servers) Close() { s.Srv.Close() }
 func (s *Servers) RegisterJWKS(name string, doc []byte) {
 	s.mu.Lock()
 	s.jwks[name] = doc
+	s.mu.Unlock()
+}
+
+// RegisterDoc publishes a static JSON document under /doc/<name> (name may contain slashes).
+func (s *Servers) RegisterDoc(name string, doc []byte) {
+	s.mu.Lock()
+	s.docs[name] = doc
 	s.mu.Unlock()
 }
 
@@ -179,6 +191,31 @@ func writeJSON(w http.ResponseWriter, status int, v any) {
 	_, _ = w.Write(b)
 }
 
+// writeAs is writeJSON with the Content-Type taken from the query parameter "ct" if present (a JSON document is a YAML
+// document as well).
+func writeAs(w http.ResponseWriter, r *http.Request, status int, v any) {
+	b, _ := json.Marshal(v)
+	ct := r.URL.Query().Get("ct")
+	if ct == "" {
+		ct = "application/json"
+	}
+	w.Header().Set("Content-Type", ct)
+	w.Header().Set("Content-Length", strconv.Itoa(len(b)))
+	w.WriteHeader(status)
+	_, _ = w.Write(b)
+}
+
+// stats is a pure function of the request digest: integral and fractional numbers, a number above 2^53, a nested object and
+// a mixed list, i.e. what expressions and templates of later pipeline steps calculate with.
+func stats(echo string) map[string]any {
+	n, _ := strconv.ParseInt(echo[:2], 16, 64)
+	return map[string]any{
+		"count": n, "ratio": float64(n) / 4, "big": int64(1234567890123456789), "flag": n%2 == 0,
+		"limits": map[string]any{"max": n + 10, "window": map[string]any{"sec": 60, "burst": 1.5}},
+		"items":  []any{n, "s" + echo[:3], map[string]any{"k": n + 1}, []any{1, 2.5}, nil, true},
+	}
+}
+
 func xHeaders(r *http.Request) map[string]string {
 	out := map[string]string{}
 	for k, v := range r.Header {
@@ -215,9 +252,24 @@ func (s *Servers) handle(w http.ResponseWriter, r *http.Request) {
 		}
 		w.Header().Set("X-Authz-Echo", echo)
 		w.Header().Set("X-Authz-Other", "o-"+echo[:6])
-		writeJSON(w, http.StatusOK, map[string]any{"echo": echo, "req": parsedBody(body), "hdr": xHeaders(r)})
+		writeAs(w, r, http.StatusOK, map[string]any{"echo": echo, "req": parsedBody(body), "hdr": xHeaders(r), "stats": stats(echo)})
 	case "ctx":
-		writeJSON(w, http.StatusOK, map[string]any{"echo": echo, "req": parsedBody(body), "hdr": xHeaders(r)})
+		writeAs(w, r, http.StatusOK, map[string]any{"echo": echo, "req": parsedBody(body), "hdr": xHeaders(r), "stats": stats(echo)})
+	case "doc":
+		name := ""
+		if len(seg) > 1 {
+			name = seg[1]
+		}
+		s.mu.Lock()
+		doc, ok := s.docs[name]
+		s.mu.Unlock()
+		if !ok {
+			http.NotFound(w, r)
+			return
+		}
+		w.Header().Set("Content-Type", "application/json")
+		w.Header().Set("Content-Length", strconv.Itoa(len(doc)))
+		_, _ = w.Write(doc)
 	case "token":
 		s.token(w, r, body)
 	case "jwks":
